@@ -27,6 +27,11 @@ def run(ctx):
     ctx.rule("R08-4", "at execve / builtin-in-subprocess no non-CLOEXEC descriptor is still owned by the child: "
                       "adjacent pipe ends closed after dup2, later pipes closed, capture pipes closed in every "
                       "stage, here-string ends closed, every dup() result used as a dup2 source closed")
+    ctx.rule("R08-5", "no operation names a pipe end the shell already released at an earlier stage "
+                      "(pipes[idx-1].1, closed by P1 of the previous stage) while a descriptor created since - the "
+                      "here-string pipe - is live: the number may have been reused, and the operation hits the newer "
+                      "descriptor (the child loses its here-string; the shell then writes into a pipe without reader "
+                      "and is killed by SIGPIPE)")
     for crate in ctx.crates:
         scalar_rule(ctx, crate)
         body = crate.fn("core::run_single_program")
@@ -89,6 +94,21 @@ def run(ctx):
         report(ctx, crate, body, "R08-4", child_obs, [f for f in fails if f[0]["id"] in {o["id"] for o in child_obs}],
                exitname=lambda bb: last_seg(body.callee(body.term(bb))))
         dup_rule(ctx, crate, body)
+        stale_rule(ctx, crate, body, m, "R08-5")
+
+
+def stale_rule(ctx, crate, body, m, rule):
+    """shared with C04 (R04-7)"""
+    uses = m.stale_uses()
+    if not uses:
+        ctx.ob(rule, body.path, "no operation on a pipe end released at an earlier stage", True, crate=crate.kind)
+    for bb, op, region, live in uses:
+        ctx.ob(rule, body.path, "%s(pipes[idx-1].1) in the %s cannot hit the here-string pipe" % (op, region), not live,
+               key="%s|%s|stale %s(pipes[idx-1].1)|%s|here-string live" % (rule, body.path, op, region),
+               where=body.loc(bb), crate=crate.kind,
+               detail=None if not live else
+               "pipes[idx-1].1 was closed by the shell at the previous stage; pipe() for the here-string runs after "
+               "that and returns the lowest free numbers, so this call closes here_string.0 before dup2(here_string.0, 0)")
 
 
 def report(ctx, crate, body, rule, obs, fails, exitname=None):
